@@ -8,7 +8,7 @@ META = {
                    "from an arbitrary symbolic population: _greedy_select_population (serial and pooled), "
                    "_extend_and_trim_population, _replace_and_trim_population on a merged population, sort_and_trim(n>=1) "
                    "and the _greedy_select_agent overrides; and through the real optimize() with scripted elitist update "
-                   "rules (greedy replacement by fresh candidates / merge-sort-trim) the reported best cost of "
+                   "rules (greedy replacement by fresh candidates / merge-sort-trim / sort-then-replace-the-tail as in cuckoo search) the reported best cost of "
                    "generation k+1 is never worse than that of generation k, for MIN and MAX, and best_solution is the "
                    "best agent ever recorded.",
     "bounds": {"quick": "helpers: 2-3 incumbents + 2-3 candidates; optimize(): 2 agents, 2 cycles",
@@ -80,6 +80,11 @@ def ob_optimize(rule, n, cycles, dname):
                     o._greedy_select_population(list(cand[c - 1]))
                 elif rule == "extend_trim":
                     o._extend_and_trim_population(list(cand[c - 1]))
+                elif rule == "sorted_tail_replacement":
+                    # cuckoo search / forest: sort with sort_and_trim (nothing to trim), then abandon the worst nests -
+                    # elitist because the best agent is first after the sort
+                    o._population = H.sort_and_trim(o._population, n)
+                    o._population[-1] = cand[c - 1][0]
                 else:
                     o._population = [o._greedy_select_agent(a, b) for a, b in zip(o._population, cand[c - 1])]
             opt = Scripted(M.BaseOptimizationConfig(population_size=n, fitness_error=None, max_cycles=cycles),
@@ -128,7 +133,7 @@ def obligations(tier):
     for cname, cls in greedy_classes():
         if cls is not None:
             obs.append(Ob(f"greedy_override[{cname}]", ob_greedy_override(cname, cls), 60))
-    for rule in ("greedy", "extend_trim", "pairwise"):
+    for rule in ("greedy", "extend_trim", "pairwise", "sorted_tail_replacement"):
         for d in ("min", "max"):
             for n, cycles in ((2, 2),) + (((3, 2), (2, 3)) if th else ()):
                 obs.append(Ob(f"optimize[{rule},n={n},cycles={cycles},{d}]", ob_optimize(rule, n, cycles, d), 900))
